@@ -32,10 +32,7 @@ func (w *world) subjectOf(s relationtuple.Subject) (subject, bool) {
 			}
 		}
 	case *relationtuple.SubjectSet:
-		if v.Namespace != nsN {
-			return subject{}, false
-		}
-		r := w.shape.relIndex(v.Relation)
+		r := w.shape.relIndexNS(v.Namespace, v.Relation)
 		for o := 0; o < w.nObj; o++ {
 			if objID(o) == v.Object && r >= 0 {
 				return subject{isSet: true, sobj: o, srel: r}, true
@@ -102,7 +99,9 @@ func (f *treeFacts) walk(t *relationtuple.Tree, depth int) {
 // namespace), page size 1, 2 or 100.
 func HarnessC09() {
 	sh := shapes(0)
-	w := &world{shape: &sh[0], nObj: verifParam("objs"), maxWidth: 64}
+	// schemaless, one namespace or two namespaces sharing relation and object names
+	w := &world{shape: &sh[verifChoice(2)], nObj: verifParam("objs"), maxWidth: 64}
+	verifNote("config: " + w.shape.name)
 	nRel := len(w.shape.rels)
 	w.rows = symRows(verifParam("K"), w.nObj, nRel)
 	if verifParam("diamond") == 1 {
@@ -190,10 +189,53 @@ func HarnessC09() {
 		verifAssert(empty, "C09: expand returned no tree although the subject set has relationships")
 		return
 	}
-	if verifVisitedSkips > 0 {
-		verifTag("missing-after-visited-skip")
+	// classification for the known-findings file, computed from the stored rows
+	// only: is some subject set reachable from the root along two different
+	// edges (a diamond or a cycle: the precondition of F8), or is the reachable
+	// graph tree-shaped?
+	full := newBools(w.nObj, nRel, false)
+	full[root.sobj][root.srel] = true
+	for e := 0; e < k; e++ {
+		for i := 0; i < k; i++ {
+			from := false
+			for o := 0; o < w.nObj; o++ {
+				for l := 0; l < nRel; l++ {
+					from = verifOr(from, verifAnd(full[o][l], rs.lhs[i][o][l]))
+				}
+			}
+			for o := 0; o < w.nObj; o++ {
+				for l := 0; l < nRel; l++ {
+					full[o][l] = verifOr(full[o][l], verifAnd(from, rs.ss[i][o][l]))
+				}
+			}
+		}
+	}
+	multi := false
+	for o := 0; o < w.nObj; o++ {
+		for l := 0; l < nRel; l++ {
+			// incoming edges of (o,l) from reachable nodes; the root counts as entered once already
+			n0, n1 := false, false // at least one, at least two
+			if o == root.sobj && l == root.srel {
+				n0 = true
+			}
+			for i := 0; i < k; i++ {
+				from := false
+				for o2 := 0; o2 < w.nObj; o2++ {
+					for l2 := 0; l2 < nRel; l2++ {
+						from = verifOr(from, verifAnd(full[o2][l2], rs.lhs[i][o2][l2]))
+					}
+				}
+				edge := verifAnd(from, rs.ss[i][o][l])
+				n1 = verifOr(n1, verifAnd(n0, edge))
+				n0 = verifOr(n0, edge)
+			}
+			multi = verifOr(multi, n1)
+		}
+	}
+	if verifConcretizeBool(multi) {
+		verifTag("missing-in-a-graph-with-a-node-reachable-along-two-edges")
 	} else {
-		verifTag("missing-without-visited-skip")
+		verifTag("missing-in-a-tree-shaped-graph")
 	}
 	for u := range subjNames {
 		verifAssert(verifOr(verifNot(idReach[u]), f.idLeaf[u]), "C09: a subject id reachable within the effective depth is missing from the tree")
